@@ -3,6 +3,13 @@
 usage: seedcheck.py [name ...]   (default: all under /verif/seeded)  [--props C01,C02]"""
 import subprocess, os, shutil, tempfile, sys, json, glob
 ROOT=os.environ.get('VERIF_ROOT') or os.path.dirname(os.path.dirname(os.path.abspath(__file__)))
+# the analyser is snapshotted once per run: a rebuild during a long sweep must not mix versions
+import atexit as _ae, shutil as _sh, tempfile as _tf
+HLINT=os.environ.get('HLINT_SNAPSHOT')
+if not HLINT:
+    _d=_tf.mkdtemp(prefix='/tmp/hlintbin.'); HLINT=_d+'/hlint'; _sh.copy2(ROOT+'/bin/hlint',HLINT); os.environ['HLINT_SNAPSHOT']=HLINT
+    _pid=os.getpid(); _ae.register(lambda: os.getpid()==_pid and _sh.rmtree(_d,ignore_errors=True))
+
 args=[a for a in sys.argv[1:] if not a.startswith('-')]
 props=None
 for a in sys.argv[1:]:
@@ -20,7 +27,7 @@ def one(n):
     meta=json.load(open(ROOT+'/seeded/%s/meta.json'%n))
     hits={}
     vd=tempfile.mkdtemp(prefix='/tmp/seedverif.'); os.mkdir(vd+'/evidence'); shutil.copy(ROOT+'/known_findings.json',vd)
-    o=subprocess.run([ROOT+'/bin/hlint','-property',props[0] if props and len(props)==1 else 'all','-repo',d,'-verif',vd],capture_output=True,text=True).stdout
+    o=subprocess.run([HLINT,'-property',props[0] if props and len(props)==1 else 'all','-repo',d,'-verif',vd],capture_output=True,text=True).stdout
     cur=None
     for l in o.splitlines():
         if l.startswith('property C'): cur=l.split()[1]
